@@ -742,6 +742,10 @@ func (r *runningStep) transitionStageWithOutput(
 	r.currentStage = newStage
 	// Don't forget to update this, or else it will behave very oddly.
 	// First running, then finished. You can't skip states.
+	if state == step.RunningStepStateWaitingForInput && newStage == StageIDExecute && r.executionInputAvailable {
+		// The input arrived since the caller looked for it, so the step is not waiting for it.
+		state = step.RunningStepStateRunning
+	}
 	r.currentState = state
 	r.lock.Unlock()
 	r.stageChangeHandler.OnStageChange(
